@@ -6,6 +6,7 @@ import StoneVerif.Model.Rt.Decode
 import StoneVerif.Model.Rt.Spec
 import StoneVerif.Model.Rt.WF
 import StoneVerif.Model.Rt.SpecC13
+import StoneVerif.Model.Rt.Ir
 /-!
 Helper lemmas for C13 (caller permissions and redaction in the JSON runtime model).
 
@@ -1101,5 +1102,127 @@ theorem redacted_field_entry (E : Ext) (env : Env) (perms : List String)
   · rw [hnn] at h1; cases h1
   · rw [← he] at h1; cases h1
 
+
+/-! ### Part 4: where the generated validators carry the redactor of an alias -/
+
+
+theorem withFlags_flags (fl : Flags) (t : PTy) : (t.withFlags fl).flags = fl := by
+  cases t <;> rfl
+
+theorem setRedact_outerRedactor (r : Redactor) (t : PTy) : (setRedact (some r) t).outerRedactor = some r := by
+  unfold setRedact PTy.outerRedactor
+  by_cases h : t.flags.nullable = true
+  · simp [h, withFlags_flags]
+  · simp [h, withFlags_flags]
+
+theorem setRedact_nullable (r : Option Redactor) (t : PTy) : (setRedact r t).flags.nullable = t.flags.nullable := by
+  unfold setRedact
+  cases r with
+  | none => rfl
+  | some r =>
+    by_cases h : t.flags.nullable = true
+    · simp [h, withFlags_flags]
+    · simp [h, withFlags_flags]
+
+/-- validators the generator builds: a non-nullable validator object has no wrapper redactor -/
+theorem validatorOf_redactOuter (t : IrTy) (T : PTy) (h : validatorOf t = some T)
+    (hn : T.flags.nullable = false) : T.flags.redactOuter = none := by
+  induction t generalizing T with
+  | bool | str | bytes | ts | void | union => simp [validatorOf] at h; subst h; rfl
+  | int cls mn mx =>
+    simp only [validatorOf, Option.map_eq_some_iff] at h
+    obtain ⟨p, _, hp⟩ := h; subst hp; rfl
+  | float cls mn mx =>
+    simp only [validatorOf, Option.map_eq_some_iff] at h
+    obtain ⟨p, _, hp⟩ := h; subst hp; rfl
+  | list t a b ih =>
+    simp only [validatorOf, Option.map_eq_some_iff] at h
+    obtain ⟨p, _, hp⟩ := h; subst hp; rfl
+  | map k v ihk ihv =>
+    simp only [validatorOf] at h
+    split at h
+    · simp at h; subst h; rfl
+    · simp at h
+  | struct cls sub =>
+    simp only [validatorOf, Option.some.injEq] at h
+    subst h
+    cases sub <;> rfl
+  | nullable t ih =>
+    simp only [validatorOf] at h
+    split at h
+    · split at h
+      · simp at h
+      · split at h
+        · simp at h
+        · simp only [Option.some.injEq] at h
+          subst h
+          simp [withFlags_flags] at hn
+    · simp at h
+  | alias n r t ih =>
+    simp only [validatorOf, Option.map_eq_some_iff] at h
+    obtain ⟨T0, hT0, hT⟩ := h
+    subst hT
+    rw [setRedact_nullable] at hn
+    have := ih T0 hT0 hn
+    unfold setRedact
+    cases r with
+    | none => exact this
+    | some r => simp [hn, withFlags_flags, this]
+
+
+
+
+theorem validatorOf_alias_outer (n : String) (r : Redactor) (t : IrTy) (T : PTy)
+    (h : validatorOf (.alias n (some r) t) = some T) : T.outerRedactor = some r := by
+  simp only [validatorOf, Option.map_eq_some_iff] at h
+  obtain ⟨T0, _, hT⟩ := h
+  subst hT
+  exact setRedact_outerRedactor r T0
+
+theorem validatorOf_nullable_alias_top (n : String) (r : Redactor) (t : IrTy) (T : PTy)
+    (h : validatorOf (.nullable (.alias n (some r) t)) = some T) :
+    T.flags.nullable = true ∧ T.flags.redactOuter = none ∧ T.flags.redactInner = some r ∧ T.topRedactor = some r := by
+  simp only [validatorOf] at h
+  split at h
+  · rename_i v hv
+    have hvo : v.outerRedactor = some r := by
+      simp only [Option.map_eq_some_iff] at hv
+      obtain ⟨T0, _, hT⟩ := hv
+      subst hT
+      exact setRedact_outerRedactor r T0
+    split at h
+    · simp at h
+    · rename_i hnn
+      have hnn' : v.flags.nullable = false := by simpa using hnn
+      have hro : v.flags.redactOuter = none :=
+        validatorOf_redactOuter (.alias n (some r) t) v (by simpa [validatorOf] using hv) hnn'
+      have hri : v.flags.redactInner = some r := by
+        simpa [PTy.outerRedactor, hnn'] using hvo
+      split at h
+      · simp at h
+      · simp only [Option.some.injEq] at h
+        subst h
+        simp [PTy.topRedactor, PTy.outerRedactor, withFlags_flags, hro, hri]
+  · simp at h
+
+theorem validatorOf_list_alias (n : String) (r : Redactor) (t : IrTy) (a b : Option Nat) (T : PTy)
+    (h : validatorOf (.list (.alias n (some r) t) a b) = some T) :
+    ∃ item, T = .list {} item a b ∧ item.outerRedactor = some r := by
+  simp only [validatorOf, Option.map_eq_some_iff] at h
+  obtain ⟨item, hitem, hT⟩ := h
+  refine ⟨item, hT.symm, validatorOf_alias_outer n r t item ?_⟩
+  simp only [validatorOf, Option.map_eq_some_iff]
+  exact hitem
+
+theorem validatorOf_map_alias (n : String) (r : Redactor) (k t : IrTy) (T : PTy)
+    (h : validatorOf (.map k (.alias n (some r) t)) = some T) :
+    ∃ kt vt, T = .map {} kt vt ∧ vt.outerRedactor = some r := by
+  simp only [validatorOf] at h
+  split at h
+  · rename_i kt vt hk hv
+    simp only [Option.some.injEq] at h
+    refine ⟨kt, vt, h.symm, validatorOf_alias_outer n r t vt ?_⟩
+    simpa [validatorOf] using hv
+  · simp at h
 
 end StoneVerif.Rt
